@@ -691,7 +691,7 @@ func (g *c20Group) runDial(rep *vk.Report, q *c20Req, report func([]c20Fault, an
 
 func TestVerif_C20(t *testing.T) {
 	rep := vk.NewReport(t, "C20", "exploration")
-	rep.Rule = "requests: groups of 20 requests against one ServeMux behind httptest (configuration = group index mod 4: with/without NIP-11 document x with/without default handler; generated document, marker default handler with status 200/203/302/404, mux logger on/off); each request draws Upgrade in {none, full handshake by websocket.Dial, hand-written complete handshake, websocket with one handshake defect, other token} x Accept in {absent, application/nostr+json, near forms (lists, parameters, case; not claimed), other media types} x 6 methods x 8 paths x {real connection, ServeHTTP with recorder}; non-trivial = every request; distinct = distinct (configuration, upgrade class, accept class, method, transport). documents: generated NIP11 values (every field independently zero/set, limitation/retention/fees absent, empty or filled, nil and empty slices, kind entries single/ascending/descending/zero-ended) checked as decode(encode(v)) = v, reference-read(encode(v)) = v, and for independently written texts t (key order, whitespace, escapes, null/explicit zero/omitted members, [k,k] pairs): decode(t) = v and decode(encode(decode(t))) = decode(t); kind bounds include values around 2^31, 2^53, 2^62, MaxInt64, MinInt64 and negatives, single and in pairs whose ends differ by 1; configuration changes: the same *NIP11 value held by the mux is altered in place (whole fields and elements of kinds/limits/nips/fees), strictly between requests, before the first request or after earlier ones, and the next answer must equal the value as it is then; distinct = distinct (field presence mask, kind forms)"
+	rep.Rule = "requests: groups of 20 requests against one ServeMux behind httptest (configuration = group index mod 4: with/without NIP-11 document x with/without default handler; generated document, marker default handler with status 200/203/302/404, mux logger on/off); each request draws Upgrade in {none, full handshake by websocket.Dial, hand-written complete handshake, websocket with one handshake defect, other token} x Accept in {absent, application/nostr+json, near forms (lists, parameters, case; not claimed), other media types} x 6 methods x 8 paths x {real connection, ServeHTTP with recorder}; added later: handshake headers without the Upgrade header; ordinary document requests after requests whose ResponseWriter breaks at once or after a few bytes; non-trivial = every request; distinct = distinct (configuration, upgrade class, accept class, method, transport). documents: generated NIP11 values (every field independently zero/set, limitation/retention/fees absent, empty or filled, nil and empty slices, kind entries single/ascending/descending/zero-ended) checked as decode(encode(v)) = v, reference-read(encode(v)) = v, and for independently written texts t (key order, whitespace, escapes, null/explicit zero/omitted members, [k,k] pairs): decode(t) = v and decode(encode(decode(t))) = decode(t); kind bounds include values around 2^31, 2^53, 2^62, MaxInt64, MinInt64 and negatives, single and in pairs whose ends differ by 1; configuration changes: the same *NIP11 value held by the mux is altered in place (whole fields and elements of kinds/limits/nips/fees), strictly between requests, before the first request or after earlier ones, and the next answer must equal the value as it is then; distinct = distinct (field presence mask, kind forms)"
 	defer rep.Finish()
 
 	// ---- (a) JSON round trip -------------------------------------------------
